@@ -190,7 +190,10 @@ pub fn run(prop: &'static str, tier: Tier, seed: u64) -> i32 {
         "C11" => reports.push(crate::lfu::run_tinylfu("C11", tier)),
         "C12" => reports.push(crate::grid::put_result_structural()),
         "C16" => reports.push(crate::lfu::run_tinylfu("C16", tier)),
-        "C17" => reports.push(crate::grid::conversion_determinism(tier)),
+        "C17" => {
+            reports.push(crate::grid::conversion_determinism(tier));
+            reports.push(crate::grid::churn(tier));
+        }
         "C18" => reports.push(crate::faults::run(tier)),
         "C19" => reports.push(crate::probes::run(tier)),
         "C20" => reports.push(crate::lfu::run_sampled("C20", tier)),
